@@ -17,6 +17,12 @@ CHECKS = {
    text="Generated-input search: every token, comment and end-of-input marker of generated texts is compared with the line:column the generator placed it at (exact where the line prefix is ASCII and tab-free, line number elsewhere), plus 1-based/ordering/containment invariants; lexical errors of eight families are planted at known offsets and the structured error's location is compared; parser error locations over single-token corruptions of generated statements. Not a proof: only generated layouts are covered.",
    note="Trusted: the generator's own offset bookkeeping; tab and non-ASCII columns are deliberately not asserted exactly (property text); a line comment's end may be its last character or the start of the next line.",
    design="4/C05"),
+ "C03": dict(
+   technique="property-based testing: grammar-directed statement generator with a model tree (round-trip text -> parse -> tree equality), random parenthesisation and keyword case",
+   level="exploration",
+   text="Generated-input search: a model tree is drawn first (typed expressions over every operator level, every SELECT clause, joins, set operations, CTEs, DML) and rendered with required plus random redundant parentheses; gosqlx.Parse must accept and its tree must deep-equal the model tree built from the library's own node types (both directions: nothing lost, nothing invented). Not exhaustive beyond the generated cases.",
+   note="Trusted: the model grammar and its AST conventions (pkg/sql/ast/doc.go, DESIGN appendix A); constructs no document promises (clauses after a FROM-less SELECT, implicit alias after a bare column, mixed INTERSECT precedence) are not generated.",
+   design="4/C03"),
 }
 
 def main():
